@@ -259,3 +259,80 @@ Definition try_sale (chain nonce contract : Z) (client : key) (amount : Z) (a : 
     | (_, Panic) => ((o1, s), Panic)               (* recovered in EndBlocker; cache context never committed *)
     end
   else (a, Err ENotFound).                         (* attestationTally does not call TryAttestation *)
+
+(** ---- whole transactions through the signature-authorisation decorator (round 5) ----
+    x/paloma/ante.go VerifyAuthorisedSignatureDecorator runs once per transaction, before any
+    message: for EVERY message that carries metadata, metadata.creator must be one of the message's
+    signers (compared as strings: the signer's canonical spelling against the creator as written) or
+    one of the signers must hold a fee allowance granted by the creator.  The messages then run one
+    after the other on the transaction's branch, which is written back only if all succeed.
+    [tm_signers] are the addresses whose signatures the transaction carries for this message (the
+    SDK's signature verification, trusted, makes metadata.signers real signers). *)
+Inductive tbody :=
+| TOp (o : op)                 (* AddLicence / Register / Auth *)
+| TStatus (creator : key).     (* MsgAddStatusUpdate: carries metadata, has no effect on this state *)
+
+Record tmsg := { tm_signers : list addr; tm_body : tbody }.
+
+Definition tm_creator (b : tbody) : option key :=
+  match b with
+  | TOp (AddLicence c _ _ _ _) => Some c
+  | TOp (Register w) => Some w
+  | TOp (Auth w) => Some w
+  | TStatus c => Some c
+  | TOp _ => None
+  end.
+
+Definition signed_by_creator (c : key) (signers : list addr) : bool :=
+  negb (snd c) && str_valid c && existsb (Z.eqb (fst c)) signers.
+Definition signed_by_grantee (s : state) (c : key) (signers : list addr) : bool :=
+  existsb (fun x => grants s (fst c) x) signers.
+
+Definition authorised (s : state) (m : tmsg) : outcome :=
+  match tm_creator (tm_body m) with
+  | None => Ok
+  | Some c =>
+    if signed_by_creator c (tm_signers m) then Ok
+    else if negb (str_valid c) then Err EInvalidAddr         (* AllowancesByGranter cannot parse the granter *)
+    else if signed_by_grantee s c (tm_signers m) then Ok
+    else Err EUnauthorized
+  end.
+
+Fixpoint ante (s : state) (ms : list tmsg) : outcome :=
+  match ms with
+  | [] => Ok
+  | m :: r => match authorised s m with Ok => ante s r | e => e end
+  end.
+
+Definition body_step (s : state) (b : tbody) : state * outcome :=
+  match b with
+  | TOp o => step s o
+  | TStatus c => if str_valid c then (s, Ok) else (s, Err EInvalidAddr)
+  end.
+
+Fixpoint run_msgs (s : state) (ms : list tmsg) : state * outcome :=
+  match ms with
+  | [] => (s, Ok)
+  | m :: r => match body_step s (tm_body m) with
+              | (s', Ok) => run_msgs s' r
+              | (_, o) => (s, o)
+              end
+  end.
+
+Definition deliver_tx (s : state) (ms : list tmsg) : state * outcome :=
+  match ante s ms with
+  | Ok => atomically (fun s0 => run_msgs s0 ms) s
+  | e => (s, e)
+  end.
+
+(** the plain operations of a transaction *)
+Definition tx_ops (ms : list tmsg) : list op :=
+  flat_map (fun m => match tm_body m with TOp o => [o] | TStatus _ => [] end) ms.
+
+(** histories of extended operations and transactions *)
+Inductive hop := HX (x : xop) | HTx (ms : list tmsg).
+Definition hstep (s : state) (h : hop) : state * outcome :=
+  match h with HX x => xstep s x | HTx ms => deliver_tx s ms end.
+Definition hrun (s : state) (hs : list hop) : state := fold_left (fun s h => fst (hstep s h)) hs s.
+Definition hop_wf (h : hop) : Prop :=
+  match h with HX x => xop_wf x | HTx ms => Forall op_wf (tx_ops ms) end.
